@@ -299,8 +299,9 @@ def main(argv=None):
         'violations': len(viol_paths),
         'violation_replays': viol_paths,
     }
-    os.makedirs(os.path.join(VERIF_DIR, 'evidence'), exist_ok=True)
-    with open(os.path.join(VERIF_DIR, 'evidence', prop + '.json'), 'w') as f:
+    evdir = os.environ.get('VERIF_EVIDENCE_DIR') or os.path.join(VERIF_DIR, 'evidence')
+    os.makedirs(evdir, exist_ok=True)
+    with open(os.path.join(evdir, prop + '.json'), 'w') as f:
         json.dump(ev, f, indent=1, default=repr, sort_keys=True)
         f.write('\n')
     print('%s tier=%s seed=%d evaluations=%d nontrivial=%d either=%d known=%s wall=%.1fs rc=%d' % (
